@@ -22,6 +22,8 @@ const (
 	capNonSpace = 4 // \S+        1..2 non-space bytes
 	capAny      = 5 // .* / .+    0..2 bytes other than newline
 	capLower    = 6 // [a-z]+     1..2 lower-case letters
+	capDate8    = 7 // \d{8}      eight digits
+	capSyslog15 = 8 // \w{3} [ \d]\d \d\d:\d\d:\d\d   fifteen bytes of that class
 )
 
 func isDigit(b byte) bool { return vAnd(b >= '0', b <= '9') }
@@ -73,6 +75,25 @@ func vmCapture(cls int, tag string) string {
 			b[i] = nondetByte(tag)
 			vAssume(b[i] > ' ')
 			vAssume(b[i] < 0x7f)
+		}
+		return string(b)
+	case capDate8:
+		b := make([]byte, 8)
+		for i := range b {
+			b[i] = nondetByte(tag)
+			vAssume(isDigit(b[i]))
+		}
+		return string(b)
+	case capSyslog15:
+		b := make([]byte, 15)
+		for i := range b {
+			b[i] = nondetByte(tag)
+		}
+		vAssume(vAnd(isWord(b[0]), vAnd(isWord(b[1]), isWord(b[2]))))
+		vAssume(vAnd(b[3] == ' ', vAnd(b[6] == ' ', vAnd(b[9] == ':', b[12] == ':'))))
+		vAssume(vOr(b[4] == ' ', isDigit(b[4])))
+		for _, i := range []int{5, 7, 8, 10, 11, 13, 14} {
+			vAssume(isDigit(b[i]))
 		}
 		return string(b)
 	case capLower:
@@ -132,7 +153,7 @@ type vmPre struct {
 func vmSymPre(obj *code.Object, tag string) *vmPre {
 	p := &vmPre{}
 	for _, m := range obj.Metrics {
-		has := nondetRange(tag+".has", 0, 1) == 1
+		has := vParam("prehas", 0) == 1 || nondetRange(tag+".has", 0, 1) == 1
 		var labels []string
 		for range m.Keys {
 			b := nondetByte(tag + ".label")
